@@ -83,6 +83,7 @@ HCIcrle_init(accrec_t *access_rec)
     rle_info->last_byte   = (unsigned)RLE_NIL; /* start with no code in the last byte */
     rle_info->second_byte = (unsigned)RLE_NIL; /* start with no code here too */
     rle_info->offset      = 0;                 /* offset into the file */
+    rle_info->encoding    = FALSE;             /* nothing buffered for output */
 
     return SUCCEED;
 } /* end HCIcrle_init() */
@@ -425,7 +426,7 @@ HCPcrle_seek(accrec_t *access_rec, int32 offset, int origin)
     rle_info = &(info->cinfo.coder_info.rle_info);
 
     if (offset < rle_info->offset) { /* need to seek from the beginning */
-        if ((access_rec->access & DFACC_WRITE) && rle_info->rle_state != RLE_INIT)
+        if ((access_rec->access & DFACC_WRITE) && rle_info->encoding && rle_info->rle_state != RLE_INIT)
             if (HCIcrle_term(info) == FAIL)
                 HRETURN_ERROR(DFE_CTERM, FAIL);
         if (HCIcrle_init(access_rec) == FAIL)
@@ -473,6 +474,8 @@ HCPcrle_read(accrec_t *access_rec, int32 length, void *data)
 
     info = (compinfo_t *)access_rec->special_info;
 
+    /* the run/mix state now describes decoded input, not output waiting to be flushed */
+    info->cinfo.coder_info.rle_info.encoding = FALSE;
     if (HCIcrle_decode(info, length, data) == FAIL)
         HRETURN_ERROR(DFE_CDECODE, FAIL);
 
@@ -511,6 +514,7 @@ HCPcrle_write(accrec_t *access_rec, int32 length, const void *data)
         (rle_info->offset != 0 && length <= (info->length - rle_info->offset)))
         HRETURN_ERROR(DFE_UNSUPPORTED, FAIL);
 
+    rle_info->encoding = TRUE;
     if (HCIcrle_encode(info, length, data) == FAIL)
         HRETURN_ERROR(DFE_CENCODE, FAIL);
 
@@ -582,7 +586,7 @@ HCPcrle_endaccess(accrec_t *access_rec)
     rle_info = &(info->cinfo.coder_info.rle_info);
 
     /* flush out RLE buffer */
-    if ((access_rec->access & DFACC_WRITE) && rle_info->rle_state != RLE_INIT)
+    if ((access_rec->access & DFACC_WRITE) && rle_info->encoding && rle_info->rle_state != RLE_INIT)
         if (HCIcrle_term(info) == FAIL)
             HRETURN_ERROR(DFE_CTERM, FAIL);
 
